@@ -666,8 +666,38 @@ def F37():
     return None
 
 
+def F38():
+    """C18/C10: reconnect() called by the application inside on_disconnect, when the connection was lost by a failed write of
+    an acknowledgement while loop_read() handled an inbound packet: the error code travelled up to loop_read(), which closed
+    the NEW socket and called on_disconnect again - the CONNECT queued by reconnect() was never written."""
+    for q in (1, 2):
+        w = World()
+        c = mk_client(w)
+        got = []
+
+        def on_disc(cl, ud, flags, rc, props):
+            got.append(rc.value)
+            if len(got) == 1:
+                cl.reconnect()
+        c.on_disconnect = on_disc
+        connect(c, w)
+        s = w.cur()
+        s.outscript.append(("error",))
+        s.feed(wire.enc_publish(4, b"a", b"p", qos=q, mid=7))
+        c.loop_read()
+        for _ in range(3):
+            if c._sock is not None and c.want_write():
+                c.loop_write()
+        if len(w.socks) == 2 and (w.socks[1].closed or not names(w.socks[1])):
+            return (f"connection 2 opened by reconnect() inside on_disconnect (QoS {q} acknowledgement could not be written) was closed "
+                    f"again by loop_read(), CONNECT never written; on_disconnect called {len(got)} times")
+        if len(got) != 1:
+            return f"on_disconnect called {len(got)} times"
+    return None
+
+
 ALL = {"F1": F1, "F2": F2, "F3": F3, "F4": F4, "F4b": F4b, "F5": F5, "F6": F6, "F7": F7, "F8": F8, "F9": F9,
-       "F10": F10, "F19": F19, "F20": F20, "F21": F21, "F22": F22, "F23": F23, "F24": F24, "F25": F25, "F26": F26, "F29": F29, "F27": F27, "F28": F28, "F11": F11, "F12": F12, "F13": F13, "F13t": F13t, "F35": F35, "F36": F36, "F37": F37, "F34": F34, "F33": F33, "F32": F32, "F31": F31, "F30": F30, "F15": F15, "F16": F16, "F17": F17, "F18": F18}
+       "F10": F10, "F19": F19, "F20": F20, "F21": F21, "F22": F22, "F23": F23, "F24": F24, "F25": F25, "F26": F26, "F29": F29, "F27": F27, "F28": F28, "F11": F11, "F12": F12, "F13": F13, "F13t": F13t, "F35": F35, "F36": F36, "F37": F37, "F38": F38, "F34": F34, "F33": F33, "F32": F32, "F31": F31, "F30": F30, "F15": F15, "F16": F16, "F17": F17, "F18": F18}
 
 
 def run(name):
